@@ -156,6 +156,38 @@ MUTANTS = [
     M("vanish-extract-secrets", F, "def _extract_secrets(", "def _extract_secretsX(", "ANALYSIS-ERROR"),
     M("vanish-route-wrapper", F, "        def route(\n", "        def route_(\n", "ANALYSIS-ERROR",
       edits=[(F, "        return route\n", "        return route_\n")]),
+    # ---- C30.8 a rejection reaches the client (added after the mutation sweep: `raise` deleted in route's handler)
+    M("http-error-swallowed-in-route", F,
+      "                    ctx.finish()\n                    raise\n",
+      "                    ctx.finish()\n", "C30.8"),
+    M("http-error-answered-with-body-only", F,
+      "                    ctx.finish()\n                    raise\n",
+      "                    ctx.finish()\n                    return (e.body or \"\").encode(\"utf-8\")  # type: ignore[return-value]\n", "C30.8"),
+    M("error-handler-not-installed", F,
+      "    _add_error_handling(_app)\n", "", "C30.8"),
+    M("error-handler-fixed-status", F,
+      "        request.setResponseCode(failure.value.code)\n", "        request.setResponseCode(http.BAD_REQUEST)\n", "C30.8"),
+    M("error-handler-for-other-exception", F,
+      "    @app.handle_errors(_HTTPError)\n", "    @app.handle_errors(ClientSecretsException)\n", "C30.8"),
+    M("bad-secrets-code-and-body-swapped", F,
+      "                        raise _HTTPError(http.BAD_REQUEST, str(e))\n",
+      "                        raise _HTTPError(str(e), http.BAD_REQUEST)  # type: ignore[arg-type]\n", "C30.8"),
+    M("bad-secrets-answered-200", F,
+      "                        raise _HTTPError(http.BAD_REQUEST, str(e))\n",
+      "                        raise _HTTPError(http.OK, str(e))\n", "C30.8"),
+    M("benign-reject-code-by-keyword", F,
+      "                        raise _HTTPError(http.BAD_REQUEST, str(e))\n",
+      "                        status = http.BAD_REQUEST\n                        raise _HTTPError(body=str(e), code=status)\n", None),
+    M("benign-route-answers-itself", F,
+      "                    ctx.finish()\n                    raise\n",
+      "                    ctx.finish()\n                    request.setResponseCode(e.code)\n"
+      "                    return (e.body or \"\").encode(\"utf-8\")  # type: ignore[return-value]\n", None),
+    M("benign-reraise-named", F,
+      "                    ctx.finish()\n                    raise\n",
+      "                    ctx.finish()\n                    raise e\n", None),
+    M("benign-error-handler-hoisted", F,
+      "        request.setResponseCode(failure.value.code)\n",
+      "        err = failure.value\n        request.setResponseCode(err.code)\n", None),
     # ---- C30.7 (write-enabler guard shared with C24; added after seeded change C30-B)
     M("enabler-checked-only-when-first-share", "src/allmydata/storage/server.py",
       "                msf = MutableShareFile(filename, self)\n                msf.check_write_enabler(write_enabler, si_s)\n                shares[sharenum] = msf\n",
